@@ -866,9 +866,23 @@ Proof.
   - unfold ret in H. injection H as <- <- _. split; [assumption|reflexivity].
 Qed.
 
+(* the mountings in which PATH_INFO goes through the router (which rejects an undecodable one) or is decoded
+   by the view itself; in the remaining one the view is handed request.subpath directly *)
+Definition routed_mount (m : N) : Prop := m = 0 \/ m = 1 \/ m = 2 \/ m = 4 \/ m = 5.
+Definition decodable (c : config) (rq : request) : Prop :=
+  routed_mount (c_mount c) \/ decode (unquote (r_raw rq)) <> None.
+
+Lemma view_name_eq seg : traversal_view_name seg = spec_view_name seg.
+Proof.
+  unfold traversal_view_name, spec_view_name. change traverser_view_selector with [at_sign; at_sign].
+  destruct seg as [|a [|b r]]; cbn [firstn skipn text_eqb andb]; try reflexivity.
+  - destruct (a =? at_sign); reflexivity.
+  - destruct (a =? at_sign), (b =? at_sign); reflexivity.
+Qed.
+
 Theorem request_conform c fs fm rq r fm' log :
   wf c -> root_is_dir c fs -> host_ok c -> fm_exact c fs fm ->
-  ((c_mount c = 0 \/ c_mount c = 1 \/ c_mount c = 2) \/ decode (unquote (r_raw rq)) <> None) ->
+  decodable c rq ->
   run_request c fs fm rq = ((r, fm'), log) ->
   fm_exact c fs fm' /\ conforms r (spec_response c rq fs) = true.
 Proof.
@@ -884,12 +898,24 @@ Proof.
                         | None => S404 end) = true).
   { intros s Hdec E. pose proof (serve_conform c rq _ fs fm _ s r fm' log Hwf Hroot Hhost Hfm Hdec E) as [H1 H2].
     split; [assumption|]. rewrite Hdec. destruct (forallb seg_ok (r_subpath rq)); exact H2. }
-  assert (Hother : (c_mount c <> 0 /\ c_mount c <> 1 /\ c_mount c <> 2) ->
-            exists s, decode (unquote (r_raw rq)) = Some s).
-  { intros (H0 & H1 & H2). destruct Hmd as [[E|[E|E]]|Hd]; try contradiction.
+  assert (Hother : ~ routed_mount (c_mount c) -> exists s, decode (unquote (r_raw rq)) = Some s).
+  { intros Hn. destruct Hmd as [E|Hd]; [contradiction|].
     destruct (decode (unquote (r_raw rq))) as [s|]; [exists s; reflexivity|congruence]. }
+  assert (Hdefault : ~ routed_mount (c_mount c) ->
+            serve c rq (unquote (r_raw rq)) fs fm (r_subpath rq) = ((r, fm'), log) ->
+            fm_exact c fs fm' /\
+            conforms r (match Some (if forallb seg_ok (r_subpath rq) then Some (r_subpath rq) else None) with
+                        | None => SReject
+                        | Some None => S404
+                        | Some (Some segs) => spec_tail c rq fs (decode (unquote (r_raw rq))) segs end) = true).
+  { intros Hn E. destruct (Hother Hn) as [s Hdec]. cbv iota.
+    destruct (Hgiven s Hdec E) as [H1 H2]. split; [assumption|].
+    destruct (forallb seg_ok (r_subpath rq)); exact H2. }
   unfold run_request, route_prefix in H. unfold spec_response, spec_segments, spec_prefix.
-  revert H Hother. destruct (c_mount c) as [|[q|q|]]; intros H Hother.
+  (* goals that remain after the default mounting is solved: 0, 5, 4, 2, 1 *)
+  revert H Hdefault. unfold routed_mount.
+  destruct (c_mount c) as [|[[q|[q|q|]|]|[q|[q|q|]|]|]]; intros H Hdefault;
+    try (apply Hdefault; [intros [E|[E|[E|[E|E]]]]; discriminate E|exact H]).
   - (* 0: add_static_view *)
     destruct (decode (unquote (r_raw rq))) as [p0|] eqn:Hdec; [|apply (Hrej 1); auto].
     change (text_eqb static_route_star traverser_subpath_key) with true in H.
@@ -898,17 +924,36 @@ Proof.
     split; [assumption|]. cbv beta iota. cbv beta iota in H2. revert H2.
     destruct (strip_prefix _ _); try exact (fun x => x).
     intros x. refine (eq_trans (f_equal (conforms r) (tail_or_404_eq c rq fs p0 _)) x).
-  - (* odd, at least 3 *)
-    destruct Hother as [s Hdec]; [repeat split; discriminate|]. exact (Hgiven s Hdec H).
-  - destruct q as [q|q|].
-    + destruct Hother as [s Hdec]; [repeat split; discriminate|]. exact (Hgiven s Hdec H).
-    + destruct Hother as [s Hdec]; [repeat split; discriminate|]. exact (Hgiven s Hdec H).
-    + (* 2: plain view on PATH_INFO *)
-      unfold serve_path_info in H. rewrite view_tuple_val in H.
-      destruct (decode (unquote (r_raw rq))) as [p0|] eqn:Hdec; [|apply (Hrej 2); auto].
-      cbn [strip_prefix]. rewrite spi_default.
-      pose proof (serve_conform c rq _ fs fm _ p0 r fm' log Hwf Hroot Hhost Hfm Hdec H) as [H1 H2].
+  - (* 5: a view named c_name found by traversal *)
+    cbv iota in H. cbv iota.
+    destruct (decode (unquote (r_raw rq))) as [p0|] eqn:Hdec; [|apply (Hrej 1); auto].
+    change (split_path_info_f (match p0 with [] => [slash] | _ => p0 end))
+      with (split_path_info (match p0 with [] => [slash] | _ => p0 end)) in H.
+    rewrite spi_default in H. cbv beta iota.
+    destruct (split_path_info p0) as [|seg rest].
+    { unfold ret in H. injection H as <- <- _. split; [assumption|reflexivity]. }
+    rewrite view_name_eq in H. destruct (text_eqb (spec_view_name seg) (c_name c)).
+    + pose proof (serve_conform c rq _ fs fm _ p0 r fm' log Hwf Hroot Hhost Hfm Hdec H) as [H1 H2].
       split; [assumption|]. refine (eq_trans (f_equal (conforms r) (tail_or_404_eq c rq fs p0 _)) H2).
+    + unfold ret in H. injection H as <- <- _. split; [assumption|reflexivity].
+  - (* 4: route with a '{subpath:.*}' placeholder *)
+    cbv iota in H. cbv iota.
+    destruct (decode (unquote (r_raw rq))) as [p0|] eqn:Hdec; [|apply (Hrej 1); auto].
+    unfold route_match_ph, placeholder_capture, capture in H. change route_anchor_abs with true in H.
+    unfold nl in H. cbv beta iota in H. cbv beta iota.
+    destruct (strip_prefix _ _) as [rest|].
+    2:{ unfold ret in H. injection H as <- <- _. split; [assumption|reflexivity]. }
+    destruct (memN 10 rest).
+    { unfold ret in H. injection H as <- <- _. split; [assumption|reflexivity]. }
+    change (traverser_tuple rest) with (@Datatypes.inr resp _ (split_path_info rest)) in H. cbv iota in H.
+    pose proof (serve_conform c rq _ fs fm _ p0 r fm' log Hwf Hroot Hhost Hfm Hdec H) as [H1 H2].
+    split; [assumption|]. refine (eq_trans (f_equal (conforms r) (tail_or_404_eq c rq fs p0 _)) H2).
+  - (* 2: plain view on PATH_INFO *)
+    unfold serve_path_info in H. rewrite view_tuple_val in H.
+    destruct (decode (unquote (r_raw rq))) as [p0|] eqn:Hdec; [|apply (Hrej 2); auto].
+    cbn [strip_prefix]. rewrite spi_default.
+    pose proof (serve_conform c rq _ fs fm _ p0 r fm' log Hwf Hroot Hhost Hfm Hdec H) as [H1 H2].
+    split; [assumption|]. refine (eq_trans (f_equal (conforms r) (tail_or_404_eq c rq fs p0 _)) H2).
   - (* 1: catch-all route *)
     destruct (decode (unquote (r_raw rq))) as [p0|] eqn:Hdec; [|apply (Hrej 1); auto].
     change (text_eqb subpath_key traverser_subpath_key) with true in H. cbv iota in H.
@@ -919,9 +964,6 @@ Proof.
 Qed.
 
 (* ------------------------------------------------------------ request sequences: conformance and filemap transparency *)
-Definition decodable (c : config) (rq : request) : Prop :=
-  (c_mount c = 0 \/ c_mount c = 1 \/ c_mount c = 2) \/ decode (unquote (r_raw rq)) <> None.
-
 Lemma run_requests_conform c fs rqs : forall fm,
   wf c -> root_is_dir c fs -> host_ok c -> fm_exact c fs fm -> Forall (decodable c) rqs ->
   Forall (fun x => conforms (fst (snd x)) (spec_response c (fst x) fs) = true)
@@ -960,14 +1002,18 @@ Lemma run_request_indep c fs fm rq :
   fm_exact c fs (snd (fst (run_request c fs fm rq))).
 Proof.
   intros Hfm. unfold run_request, serve_path_info.
-  destruct (c_mount c) as [|[q|q|]].
+  destruct (c_mount c) as [|[[q|[q|q|]|]|[q|[q|q|]|]|]]; try (apply serve_indep; assumption).
   - destruct (decode _); [|split; [reflexivity|assumption]].
     destruct (route_match _ _); [|split; [reflexivity|assumption]].
     destruct static_use_subpath; [apply serve_indep; assumption|].
     destruct (view_tuple _); [split; [reflexivity|assumption]|apply serve_indep; assumption].
-  - apply serve_indep; assumption.
-  - destruct q as [q|q|]; try (apply serve_indep; assumption).
-    destruct (view_tuple _); [split; [reflexivity|assumption]|apply serve_indep; assumption].
+  - cbv iota. destruct (decode _); [|split; [reflexivity|assumption]].
+    destruct (split_path_info_f _); [split; [reflexivity|assumption]|].
+    destruct (text_eqb _ _); [apply serve_indep; assumption|split; [reflexivity|assumption]].
+  - cbv iota. destruct (decode _); [|split; [reflexivity|assumption]].
+    destruct (route_match_ph _ _) as [rest|]; [|split; [reflexivity|assumption]].
+    destruct (traverser_tuple rest); [split; [reflexivity|assumption]|apply serve_indep; assumption].
+  - destruct (view_tuple _); [split; [reflexivity|assumption]|apply serve_indep; assumption].
   - destruct (decode _); [|split; [reflexivity|assumption]].
     destruct (route_match _ _); [|split; [reflexivity|assumption]].
     apply serve_indep; assumption.
@@ -981,6 +1027,72 @@ Proof.
   cbn [run_requests map]. destruct (run_request_indep c fs fm rq Hfm) as [E Hfm'].
   destruct (run_request c fs fm rq) as [[r fm'] log]. cbn [fst snd map] in *. rewrite E. f_equal. apply IH. assumption.
 Qed.
+
+(* ------------------------------------------------------------ the served variant, any history *)
+(* what C16_variant_acceptable says of a 200 answer, as a predicate of the response *)
+Definition variant_ok (c : config) (fs : fsys) (rq : request) (r : resp) : Prop :=
+  forall body enc vary, r = R200 body enc vary ->
+  exists name p,
+    let keyed := fst (sizes fs (fst (probe c fs (candidates c name)))) in
+    spec_acceptable rq enc = true /\
+    (exists sz, fs_stat fs p = Some (EFile sz body)) /\
+    exists k, In (k, (p, enc)) keyed /\ k = entry_size (fs_stat fs p) /\
+      forall k' f', In (k', f') keyed -> spec_acceptable rq (snd f') = true -> k <= k'.
+
+Lemma serve_variant_ok c rq pi fs fm t :
+  fm_exact c fs fm -> variant_ok c fs rq (fst (fst (serve c rq pi fs fm t))).
+Proof.
+  intros Hfm body enc vary E. destruct (serve_indep c rq pi fs fm t Hfm) as [Ei _]. rewrite Ei in E.
+  destruct (serve c rq pi fs [] t) as [[r2 fm2] l2] eqn:E2. cbn [fst] in E. subst r2.
+  exact (variant_acceptable c rq pi fs t body enc vary fm2 l2 E2).
+Qed.
+
+Lemma not200_variant_ok c fs rq r : (forall b e v, r <> R200 b e v) -> variant_ok c fs rq r.
+Proof. intros H b e v E. exfalso. exact (H b e v E). Qed.
+
+Lemma run_request_variant_ok c fs fm rq :
+  fm_exact c fs fm -> variant_ok c fs rq (fst (fst (run_request c fs fm rq))).
+Proof.
+  intros Hfm. unfold run_request, serve_path_info.
+  assert (Hexc : forall k, variant_ok c fs rq (fst (fst (ret (RExc k, fm))))).
+  { intros k. apply not200_variant_ok. intros b e v. discriminate. }
+  assert (H404 : forall k, variant_ok c fs rq (fst (fst (ret (R404 k, fm))))).
+  { intros k. apply not200_variant_ok. intros b e v. discriminate. }
+  assert (Hvt : forall pi, variant_ok c fs rq (fst (fst (match view_tuple pi with
+                 | Datatypes.inl r => ret (r, fm) | Datatypes.inr t => serve c rq pi fs fm t end)))).
+  { intros pi. unfold view_tuple. destruct (decode pi); [|apply Hexc].
+    destruct view_decodes_again; [|apply serve_variant_ok; assumption].
+    destruct (latin1 _); [|apply Hexc]. destruct (decode _); [apply serve_variant_ok; assumption|apply Hexc]. }
+  destruct (c_mount c) as [|[[q|[q|q|]|]|[q|[q|q|]|]|]]; try (apply serve_variant_ok; assumption).
+  - destruct (decode _); [|apply Hexc]. destruct (route_match _ _); [|apply H404].
+    destruct static_use_subpath; [apply serve_variant_ok; assumption|apply Hvt].
+  - cbv iota. destruct (decode _); [|apply Hexc]. destruct (split_path_info_f _); [apply H404|].
+    destruct (text_eqb _ _); [apply serve_variant_ok; assumption|apply H404].
+  - cbv iota. destruct (decode _); [|apply Hexc]. destruct (route_match_ph _ _) as [rest|]; [|apply H404].
+    unfold traverser_tuple. destruct traverser_str_decodes_again; [|apply serve_variant_ok; assumption].
+    destruct (latin1 _); [|apply Hexc]. destruct (decode _); [apply serve_variant_ok; assumption|apply Hexc].
+  - apply Hvt.
+  - destruct (decode _); [|apply Hexc]. destruct (route_match _ _); [|apply H404].
+    apply serve_variant_ok; assumption.
+Qed.
+
+(* every 200 answer of a request sequence handled by one view instance -- whatever the filemap holds from earlier
+   requests -- is the content of an existing file, labelled with that file's encoding, acceptable to the client of
+   THIS request, and no acceptable existing candidate is smaller *)
+Theorem variant_acceptable_history c fs rqs : forall fm,
+  fm_exact c fs fm ->
+  Forall (fun x => variant_ok c fs (fst x) (fst (snd x))) (combine rqs (run_requests c fs fm rqs)).
+Proof.
+  induction rqs as [|rq rqs IH]; intros fm Hfm; [constructor|].
+  cbn [run_requests]. pose proof (run_request_variant_ok c fs fm rq Hfm) as Hv.
+  destruct (run_request_indep c fs fm rq Hfm) as [_ Hfm'].
+  destruct (run_request c fs fm rq) as [[r fm'] log]. cbn [fst snd combine] in *.
+  constructor; [exact Hv|apply IH; exact Hfm'].
+Qed.
+
+Lemma variant_acceptable_fresh c fs rqs :
+  Forall (fun x => variant_ok c fs (fst x) (fst (snd x))) (combine rqs (run_model c fs rqs)).
+Proof. apply variant_acceptable_history. apply fm_exact_nil. Qed.
 
 (* ------------------------------------------------------------ containment for both kinds of root *)
 Lemma probe_ok_g c fs cands found log :
@@ -1084,14 +1196,18 @@ Proof.
   intros Hwf Hroot Hfm H. unfold run_request, serve_path_info in H.
   assert (Hret : forall r0, ret (r0, fm) = ((r, fm'), log) -> contained c log = true /\ fm_ok c fm').
   { intros r0 E. unfold ret in E. injection E as <- <- <-. split; [reflexivity|assumption]. }
-  destruct (c_mount c) as [|[q|q|]].
+  destruct (c_mount c) as [|[[q|[q|q|]|]|[q|[q|q|]|]|]]; try (eapply serve_contained_g; eassumption).
   - destruct (decode (unquote (r_raw rq))) as [p0|]; [|eapply Hret; eassumption].
     destruct (route_match _ _) as [rest|]; [|eapply Hret; eassumption].
     destruct static_use_subpath; [eapply serve_contained_g; eassumption|].
     destruct (view_tuple _); [eapply Hret; eassumption|eapply serve_contained_g; eassumption].
-  - eapply serve_contained_g; eassumption.
-  - destruct q as [q|q|]; try (eapply serve_contained_g; eassumption).
-    destruct (view_tuple _); [eapply Hret; eassumption|eapply serve_contained_g; eassumption].
+  - cbv iota in H. destruct (decode (unquote (r_raw rq))) as [p0|]; [|eapply Hret; eassumption].
+    destruct (split_path_info_f _) as [|seg rest]; [eapply Hret; eassumption|].
+    destruct (text_eqb _ _); [eapply serve_contained_g; eassumption|eapply Hret; eassumption].
+  - cbv iota in H. destruct (decode (unquote (r_raw rq))) as [p0|]; [|eapply Hret; eassumption].
+    destruct (route_match_ph _ _) as [rest|]; [|eapply Hret; eassumption].
+    destruct (traverser_tuple rest) as [r0|t]; [eapply Hret; eassumption|eapply serve_contained_g; eassumption].
+  - destruct (view_tuple _); [eapply Hret; eassumption|eapply serve_contained_g; eassumption].
   - destruct (decode (unquote (r_raw rq))) as [p0|]; [|eapply Hret; eassumption].
     destruct (route_match _ _) as [rest|]; [|eapply Hret; eassumption].
     eapply serve_contained_g; eassumption.
@@ -1284,6 +1400,45 @@ Proof.
   rewrite (run_multi_cons cs fs fms i rq rqs r fm' log E). cbn [combine]. constructor; [exact Hl|].
   apply IH. apply fms_ok_update; assumption.
 Qed.
+
+(* several view instances: every 200 answer of any interleaving is a smallest variant acceptable to the client of that
+   request, judged against the configuration of the instance that served it *)
+Theorem variant_acceptable_multi cs fs rqs : forall fms,
+  fms_exact cs fs fms ->
+  Forall (fun x => variant_ok (nth (fst (fst x)) cs dflt_cfg) fs (snd (fst x)) (fst (snd x)))
+         (combine rqs (run_multi cs fs fms rqs)).
+Proof.
+  induction rqs as [|[i rq] rqs IH]; intros fms Hfms; [constructor|].
+  cbn [run_multi]. change filemap_per_instance with true. cbv iota.
+  pose proof (run_request_variant_ok (nth i cs dflt_cfg) fs (nth i fms []) rq (Hfms i)) as Hv.
+  destruct (run_request_indep (nth i cs dflt_cfg) fs (nth i fms []) rq (Hfms i)) as [_ Hfm'].
+  destruct (run_request (nth i cs dflt_cfg) fs (nth i fms []) rq) as [[r fm'] log]. cbn [fst snd combine] in *.
+  constructor; [exact Hv|apply IH; apply fms_exact_update; assumption].
+Qed.
+
+Lemma variant_acceptable_multi_fresh cs fs rqs :
+  Forall (fun x => variant_ok (nth (fst (fst x)) cs dflt_cfg) fs (snd (fst x)) (fst (snd x)))
+         (combine rqs (run_multi_model cs fs rqs)).
+Proof. apply variant_acceptable_multi. apply fms_exact_fresh. Qed.
+
+(* non-vacuity of C16_variant_acceptable_history: the second request is answered from the filemap (shorter trace) with the
+   variant its own Accept-Encoding allows, although the first client got the identity file *)
+Example variant_history_nonvacuous :
+  let c := ex_cfg 1 [47; 114] in
+  exists l1 l2, run_model c ex_fs [mkReq [47; 102] [] [] false []; mkReq [47; 102] [] [] true [[103]]] =
+                  [(R200 [1; 2; 3] None true, l1); (R200 [9] (Some [103]) true, l2)] /\ Nat.ltb (length l2) (length l1) = true.
+Proof. eexists. eexists. split; vm_compute; reflexivity. Qed.
+
+(* the two round-5 mountings: "/s/f" on the route '/s/{subpath:.*}' (4) and on a view named "s" found by traversal (5),
+   also as "/@@s/f"; the smaller variant is served; "/s/f" + LF is not a URL of the placeholder route *)
+Example placeholder_traversal_nonvacuous :
+  let rq p := mkReq p [] [] true [[103]] in
+  (exists l, run_model (ex_cfg 4 [47; 114]) ex_fs [rq [47; 115; 47; 102]] = [(R200 [9] (Some [103]) true, l)]) /\
+  (exists l, run_model (ex_cfg 5 [47; 114]) ex_fs [rq [47; 115; 47; 102]] = [(R200 [9] (Some [103]) true, l)]) /\
+  (exists l, run_model (ex_cfg 5 [47; 114]) ex_fs [rq [47; 64; 64; 115; 47; 102]] = [(R200 [9] (Some [103]) true, l)]) /\
+  run_model (ex_cfg 4 [47; 114]) ex_fs [rq [47; 115; 47; 102; 37; 48; 65]] = [(R404 0, [])] /\
+  run_model (ex_cfg 5 [47; 114]) ex_fs [rq [47; 120; 47; 102]] = [(R404 0, [])].
+Proof. repeat split; try eexists; vm_compute; reflexivity. Qed.
 
 Lemma facts_ok2 : filemap_per_instance = true.
 Proof. reflexivity. Qed.
